@@ -59,8 +59,15 @@ void COTPdoInit(CO_TPDO *pdo, CO_NODE *node)
     COTPdoMapClear(node->TMap);
     for (num = 0; num < CO_TPDO_N; num++) {
         pdo[num].Node       = node;
+        if (pdo[num].EvTmr >= 0) {
+            (void)COTmrDelete(&node->Tmr, pdo[num].EvTmr);
+        }
         pdo[num].EvTmr      = -1;
+        if (pdo[num].InTmr >= 0) {
+            (void)COTmrDelete(&node->Tmr, pdo[num].InTmr);
+        }
         pdo[num].InTmr      = -1;
+        pdo[num].Flags     &= ~CO_TPDO_FLG__I_;
         pdo[num].Identifier = CO_TPDO_COBID_OFF;
         pdo[num].ObjNum     = 0;
         for (on = 0; on < 8; on++) {
